@@ -34,6 +34,9 @@ func configFor(k int, rng *sim.Rng) Config {
 	c.BufferV1 = []Frac{fr(6, 5), fr(3, 2), fr(1, 1)}[k%3]
 	c.CuspV1 = []Frac{fr(7, 10), fr(3, 5), fr(1, 2)}[(k/2)%3]
 	c.Interest = c.StabFee.Num > 0
+	if k%2 == 1 { // every other run: a collector that can cover the whole debt of any auction (loss close-outs that draw more than the shortfall succeed too)
+		c.CollectorFund = 1000 * c.DecS
+	}
 	return c
 }
 
